@@ -490,13 +490,25 @@ func TestVerifC11bFilter(t *testing.T) {
 			vf.Case(false, "", nil)
 			return
 		}
-		if fnd != nil && fnd.differential {
-			// A difference must be reproducible on brand-new instances: an environmental hiccup (a
-			// refused upstream connection, an etcd timeout on a loaded machine) is not.
+		if fnd != nil {
+			// Every finding must reproduce on brand-new instances: an environmental hiccup (a refused
+			// upstream connection, an etcd timeout on a loaded machine) or a time-dependent branch does not.
 			again := scenario(false)
 			if again == nil || again.key != fnd.key {
-				vf.Class("differential-mismatch-not-reproduced kind=" + kindName)
+				vf.Class("finding-not-reproduced kind=" + kindName)
 				fnd = nil
+			}
+		}
+		if fnd != nil && !fnd.differential && (nondet0 != "" || nondet1 != "") {
+			// a panic of a time- or random-dependent filter is only attributed to the update when
+			// further never-updated twins stay panic-free
+			for i := 0; i < 3 && fnd != nil; i++ {
+				_, ok0, _ := vfC11Twin(env, kind, text0, oldSeq)
+				_, ok1, _ := vfC11Twin(env, kind, text1, newR)
+				if !ok0 || !ok1 {
+					vf.Class("discarded-single-generation-panic", "discarded-single-generation-panic kind="+kindName+" found-late")
+					fnd = nil
+				}
 			}
 		}
 		vf.Case(oldExercised > 0, dk, func() interface{} {
